@@ -398,9 +398,21 @@ type cliOpt struct {
 	colors  string
 }
 
+// encodeNoPanic: a panic inside the command's encoder is a violation reported with its case, not a dead harness
+func encodeNoPanic(v any, o cliOpt, buf *bytes.Buffer) (err error, panicked any) {
+	defer func() { panicked = recover() }()
+	err = cli.VerifC12Encode(v, o.tab, o.indent, o.nocolor, o.colors, buf)
+	return
+}
+
 func emitCli(c *Ctx, v any, o cliOpt, rng *Rng) {
 	var buf bytes.Buffer
-	if err := cli.VerifC12Encode(v, o.tab, o.indent, o.nocolor, o.colors, &buf); err != nil {
+	err, pan := encodeNoPanic(v, o, &buf)
+	if pan != nil {
+		c.Violation("cli encoder %+v %s :: the encoder panicked: %v", o, SexpVal(v), pan)
+		return
+	}
+	if err != nil {
 		c.Violation("cli encoder %+v %s :: error %v", o, SexpVal(v), err)
 		return
 	}
